@@ -19,6 +19,10 @@ def build_obs(tier, tables):
                       params={"what": "section title: print (2 symbolic bytes) -> one <dq_str> step", "continuation_bytes": cont}))
     obs.append(Ob("rt-annotation", "c05_rt.c", ["-DMODE=4"], unwind=12, unwindset=US + ["v_fputs.0:12", "strstr.0:8", "strchr.0:8"], checks="none", must_reach=("stepped",),
                   params={"what": "annotation of 1-3 symbolic bytes printed by the real printer is exactly one comment of the language"}))
+    obs.append(Ob("rt-keyname-word", "c05_rt.c", ["-DMODE=5", "-DBAREWORD"], unwind=12, unwindset=US + ["v_fputs.0:12"], checks="none", must_reach=("stepped",),
+                  params={"what": "option name of 1-2 bare-word bytes: print -> one scanner step reads the same name back"}))
+    obs.append(Ob("rt-keyname-any", "c05_rt.c", ["-DMODE=5"], unwind=12, unwindset=US + ["v_fputs.0:12"], checks="none", must_reach=("stepped",),
+                  params={"what": "free-form key of 1-2 arbitrary bytes (CFGF_KEYSTRVAL accepts any string token as a key): print -> one scanner step"}))
     obs.append(Ob("rt-int-bool", "c05_rt.c", ["-DMODE=3"], unwind=12, unwindset=US, checks="none", must_reach=("stepped",),
                   params={"what": "integer in -99999..99999 and boolean: print -> cfg_setopt"}))
     # the accumulated string survives every later step and is delivered by the closing quote (incl. the
